@@ -153,7 +153,7 @@ namespace parmcb {
     }
 
 #ifdef PARMCB_HAVE_TBB
-    void set_global_tbb_concurrency(const std::size_t hardware_concurrency_hint) {
+    inline void set_global_tbb_concurrency(const std::size_t hardware_concurrency_hint) {
 #if TBB_VERSION_MAJOR > 2020
         // the limit is in force only while the control object is alive: keep it beyond this call
         static std::unique_ptr<oneapi::tbb::global_control> global_limit;
